@@ -649,6 +649,11 @@ def gen_fail(rng):
         ops.append(dict(op="push", src=("bytesio", 0), path=b"/sdcard/f", cb=rng.choice(["none", "count"])))
     elif kind == "push_fail_early":
         sim["push_result"] = ("fail", msg, "early")
+        if rng.random() < 0.5:
+            # only the first piece(s) of the FAIL record overtake the OKAY; header and reason travel in separate packets
+            sim["wrte_split"] = rng.choice([[8, 100], [8], [4], [9, 3]])
+            sim["early_before"] = rng.choice([1, 1, 2])
+            sim["burst"] = False
         ops.append(dict(op="push", src=("bytesio", 0), path=b"/sdcard/f"))
     elif kind == "pull_invalid":
         rid = rng.choice([b"DENT", b"OKAY", b"STAT", b"SEND", b"LIST"])
